@@ -44,6 +44,11 @@ def _fail(node, why):
     raise TranslateError(f"hash-program translator: unsupported shape ({why}): {src!r} at line {getattr(node, 'lineno', '?')}")
 
 
+def _neg(c):
+    """negation of a condition, without stacking double negations"""
+    return c[1] if c[0] == "not" else ("not", c)
+
+
 def _is_attr_chain(n, names):
     """n == names[0].names[1]...."""
     for name in reversed(names[1:]):
@@ -126,14 +131,14 @@ class HashProgram:
             op, r = n.ops[0], n.comparators[0]
             if isinstance(op, (ast.In, ast.NotIn)) and _is_attr_chain(r, ["ex", "path", "sliced"]):
                 c = ("in_sliced", self.val(n.left))
-                return c if isinstance(op, ast.In) else ("not", c)
+                return c if isinstance(op, ast.In) else _neg(c)
             if isinstance(op, (ast.Is, ast.IsNot)) and _is_attr_chain(n.left, ["ex", "path", "sliced"]) and isinstance(r, ast.Constant) and r.value is None:
-                return ("sliced_none",) if isinstance(op, ast.Is) else ("not", ("sliced_none",))
+                return ("sliced_none",) if isinstance(op, ast.Is) else _neg(("sliced_none",))
         if isinstance(n, ast.Call) and isinstance(n.func, ast.Name) and n.func.id == "isinstance" and len(n.args) == 2 \
                 and isinstance(n.args[1], ast.Name) and n.args[1].id == "int":
             return ("key_is_int", self.var(n.args[0], "key"))
         if isinstance(n, ast.UnaryOp) and isinstance(n.op, ast.Not):
-            return ("not", self.cond(n.operand))
+            return _neg(self.cond(n.operand))
         _fail(n, "condition")
 
     def iterable(self, n):
@@ -171,13 +176,20 @@ class HashProgram:
             return _is_attr_chain(n.func, list(c))
         return isinstance(n.func, ast.Name) and n.func.id == c
 
-    def block(self, stmts, acc_name, toplevel=False):
+    def block(self, stmts, acc_name, toplevel=False, in_loop=False):
         """Translates statements that may only touch the accumulator `acc_name` (None at top
         level: any); returns the list of ops appended to it (top level: returns nothing)."""
         ops = []
-        for st in stmts:
+        for pos, st in enumerate(stmts):
             if isinstance(st, ast.Expr) and isinstance(st.value, ast.Constant) and isinstance(st.value.value, str):
                 continue  # docstring
+            # `if COND: continue` directly in a loop body: the rest of the body runs under `not COND`
+            if in_loop and isinstance(st, ast.If) and not st.orelse and len(st.body) == 1 and isinstance(st.body[0], ast.Continue):
+                c = self.cond(st.test)
+                if c[0] == "key_is_int":
+                    _fail(st, "continue on a key test")
+                ops.append(("if", _neg(c), self.block(stmts[pos + 1:], acc_name, in_loop=True)))
+                return ops
             # m.update(ITEM)
             if isinstance(st, ast.Expr) and isinstance(st.value, ast.Call) and isinstance(st.value.func, ast.Attribute) and st.value.func.attr == "update" \
                     and isinstance(st.value.func.value, ast.Name) and len(st.value.args) == 1 and not st.value.keywords:
@@ -204,7 +216,9 @@ class HashProgram:
                     irs.append(ir)
                     self.env[x.id] = ("var", k, ir)
                 acc = acc_name or self._single_acc(st)
-                body = self.block(st.body, acc)
+                if acc is None:
+                    _fail(st, "loop without accumulator")
+                body = self.block(st.body, acc, in_loop=True)
                 self.env = saved
                 op = ("for", kind, src, irs, body)
                 (self.env[acc][1] if toplevel else ops).append(op)
@@ -221,7 +235,7 @@ class HashProgram:
                     self.narrowed = dict(saved_n)
                     if c[0] == "key_is_int":
                         self.narrowed[c[1]] = "tuple"
-                    out.append(("if", ("not", c), self.block(st.orelse, acc)))
+                    out.append(("if", _neg(c), self.block(st.orelse, acc)))
                 self.narrowed = saved_n
                 if acc is None:
                     # a block without accumulator updates: only `raise` is allowed in it
